@@ -18,7 +18,9 @@ use nom::{
 };
 
 use super::{
-    common::{in_braces, in_parentheses, skip_ws, skip_ws_and_comments, value_reference},
+    common::{
+        in_braces, in_parentheses, reserved_words, skip_ws, skip_ws_and_comments, value_reference,
+    },
     constraint::constraints,
     error::ParserResult,
     RELATIVE_OID,
@@ -66,7 +68,7 @@ pub fn object_identifier(input: Input<'_>) -> ParserResult<'_, ASN1Type> {
     map(
         into(preceded(
             // TODO: store info whether the object id is relative
-            skip_ws_and_comments(alt((tag(OBJECT_IDENTIFIER), tag(RELATIVE_OID)))),
+            skip_ws_and_comments(alt((reserved_words(OBJECT_IDENTIFIER), tag(RELATIVE_OID)))),
             opt(skip_ws_and_comments(constraints)),
         )),
         ASN1Type::ObjectIdentifier,
